@@ -54,6 +54,11 @@ func main() {
 		from, _ := strconv.ParseInt(os.Args[5], 10, 64)
 		dl, _ := strconv.ParseInt(os.Args[6], 10, 64)
 		os.Exit(checks.C11Child(os.Args[2], shard, n, from, dl, os.Args[7], os.Args[8]))
+	case "c18hist":
+		os.Exit(checks.C18Hist(os.Args[2]))
+	case "c18race":
+		n, _ := strconv.Atoi(os.Args[2])
+		os.Exit(checks.C18Race(n))
 	case "tree":
 		fmt.Println(checks.TreeOf(os.Args[2]))
 	case "c11one":
